@@ -208,7 +208,9 @@ def tps_back(F, ob, cfg):
     fwd.coefficients = None
     inv = fwd.pseudoinverse()
     ob.true("type", type(inv) is tp.ThinPlateSplines)
-    ob.true("swapped", inv.source is fwd.target and inv.target is fwd.source)
+    # (ends exchanged BY VALUE: the property does not promise the same objects)
+    ob.eq("swapped.source", inv.source.points, fwd.target.points)
+    ob.eq("swapped.target", inv.target.points, fwd.source.points)
     ob.true("kernel.class", type(inv.kernel) is kcls)
     ob.eq("kernel.centres", inv.kernel.c, inv.source.points)
     ob.true("min_singular_val", inv.min_singular_val == cfg["msv"])
